@@ -174,7 +174,7 @@ def regime(rng, cfg, first=False):
     sys['cpacr'] = rng.getrandbits(28) if rng.random() < 0.5 else 0x0FFFFFFF
     sys['nsacr'] = rng.getrandbits(20) if rng.random() < 0.4 else 0x3FFF
     if cfg['memory_system_architecture'] == 'PMSA':
-        sys.update(G.mpu_sys(G.random_mpu(rng, cfg['number_of_mpu_regions'])))
+        sys.update(G.mpu_sys(G.random_mpu(rng, cfg['number_of_mpu_regions']), nu=rng.getrandbits(1)))
         if sys['drsrs'] and rng.random() < 0.6:
             # make sure code and vectors are reachable most of the time: a full-access 4 GiB region 0
             sys['drsrs'][0] = 1 | 31 << 1
